@@ -300,3 +300,49 @@
         for f in failures.iter().take(5) { println!("FAILING INPUT: {}", f); }
         assert!(failures.is_empty());
     }
+
+    /// C12, split references inside the SECOND user dictionary under restricted field requests: the word ゑあゑい of user dictionary 2
+    /// declares the A units U0/U1 (its own words).  Whatever fields are requested, its A-mode sub-tokens are words 0 and 1 of dictionary 2,
+    /// and system words keep dictionary 0.
+    #[test]
+    fn verif_oracle_second_user_dictionary_units() {
+        if !want("C12") { return; }
+        let mut cfgb = ConfigTestSupport::new();
+        let mut dic = DictBuilder::new_system();
+        dic.read_conn(super::super::MATRIX_10_10).unwrap();
+        dic.read_lexicon(SYSTEM_LEX).unwrap();
+        dic.resolve().unwrap();
+        dic.compile(&mut cfgb.make_system()).unwrap();
+        let sys = JapaneseDictionary::from_cfg(&cfgb.config()).unwrap();
+        let u1 = "ゑう,8,8,2914,ゑう,名詞,普通名詞,一般,*,*,*,ヱウ,ゑう,*,A,*,*,*,*\nゑえ,8,8,2914,ゑえ,名詞,普通名詞,一般,*,*,*,ヱエ,ゑえ,*,A,*,*,*,*\n";
+        let u2 = "ゑあ,8,8,2914,ゑあ,名詞,普通名詞,一般,*,*,*,ヱア,ゑあ,*,A,*,*,*,*\nゑい,8,8,2914,ゑい,名詞,普通名詞,一般,*,*,*,ヱイ,ゑい,*,A,*,*,*,*\nゑあゑい,8,8,-2000,ゑあゑい,名詞,普通名詞,一般,*,*,*,ヱアヱイ,ゑあゑい,*,C,U0/U1,U0/U1,U0/U1,*\n";
+        for lex in [u1, u2] {
+            let mut ud = DictBuilder::new_user(&sys);
+            ud.read_lexicon(lex.as_bytes()).unwrap();
+            ud.resolve().unwrap();
+            ud.compile(&mut cfgb.add_user()).unwrap();
+        }
+        let jd = JapaneseDictionary::from_cfg(&cfgb.config()).unwrap();
+        let subsets = [("all", InfoSubset::all()), ("surface|pos|normalized", InfoSubset::SURFACE | InfoSubset::POS_ID | InfoSubset::NORMALIZED_FORM),
+                       ("surface|pos|normalized|split_b", InfoSubset::SURFACE | InfoSubset::POS_ID | InfoSubset::NORMALIZED_FORM | InfoSubset::SPLIT_B),
+                       ("surface|pos|normalized|word_structure", InfoSubset::SURFACE | InfoSubset::POS_ID | InfoSubset::NORMALIZED_FORM | InfoSubset::WORD_STRUCTURE)];
+        let mut failures = Vec::new();
+        for (name, sub) in subsets.iter() { for (mode, order) in [(Mode::A, 0), (Mode::A, 1), (Mode::B, 0)] {
+            let r = std::panic::catch_unwind(std::panic::AssertUnwindSafe(|| {
+                let mut tok = StatefulTokenizer::new(&jd, if order == 1 { Mode::C } else { mode });
+                tok.set_subset(*sub);
+                if order == 1 { tok.set_mode(mode); }
+                tok.reset().push_str("ゑあゑい京都");
+                tok.do_tokenize().map(|_| { let mut ms = MorphemeList::empty(&jd); ms.collect_results(&mut tok).unwrap(); ms.iter().map(|m| (m.surface().to_string(), m.dictionary_id(), m.word_id().word())).collect::<Vec<_>>() })
+            }));
+            let want = vec![("ゑあ".to_string(), 2, 0u32), ("ゑい".to_string(), 2, 1), ("京都".to_string(), 0, 3)];
+            match r {
+                Ok(Ok(got)) => if got != want && failures.len() < 10 { failures.push(format!("two user dictionaries, fields {}, mode {:?} ({}): (surface, dictionary, word) {:?}, declared {:?}", name, mode, if order == 1 { "set_subset then set_mode" } else { "created in that mode" }, got, want)); },
+                Ok(Err(e)) => if failures.len() < 10 { failures.push(format!("two user dictionaries, fields {}, mode {:?}: analysis fails: {:?}", name, mode, e)); },
+                Err(_) => if failures.len() < 10 { failures.push(format!("two user dictionaries, fields {}, mode {:?}: analysis panics", name, mode)); },
+            }
+        }}
+        println!("verif_oracle_second_user_dictionary_units: {} failures", failures.len());
+        for f in failures.iter().take(5) { println!("FAILING INPUT: {}", f); }
+        assert!(failures.is_empty());
+    }
